@@ -46,6 +46,7 @@ TEMPLATED = [
     "\\N{NOT A NAME}", "\\u00", "\\400", "\r", "\t", "\x00", "\x0b", "\x0c", "\x1b", "\x85", " ", " ", "﻿", "é", "日本", "\U0001f600",
     "x\rPWNED()", "\rPWNED()#", "x\x0cPWNED()", "x\x0bPWNED()", "x\x1cPWNED()", "x\x1ePWNED()", "x\x85PWNED()", "x\u2028PWNED()",
     "x\u2029PWNED()", "x\r\tPWNED()", "x\x00PWNED()", "x\x1aPWNED()", "x\\\rPWNED()",
+    "name", "id", "group_definition", "left_term", "__root__", "$key", "$$", "${name}", "$args", "$params",
     "lambda: PWNED()", "PWNED()", "PWNED", "__import__", "f'{PWNED()}'", "rb'x'", "None", "True", "partial", "deterministic_choice",
 ]
 ALPHABET = "'\"\\(){}[]+%#,:; nxNu01aPWED\t"
@@ -80,6 +81,8 @@ POSITIONS = {
     "tuple-member": lambda S: f'def p {{ splitters: u if f in ({S[0]}, "x") {{ return "T" weighted 1 }} else {{ return "F" weighted 1 }} }}',
     "single-tuple": lambda S: f'def p {{ if f not in ({S[0]}) {{ return "T" weighted 1 }} else {{ return "F" weighted 1 }} }}',
     "nested-tuple-member": lambda S: f'def p {{ if f in (({S[0]}, "y"), ("z", {S[1]})) {{ return "T" weighted 1 }} else {{ return "F" weighted 1 }} }}',
+    "pair-tuple-key": lambda S: f'def p {{ if f in ((({S[0]}, "gold"), ("region", "emea")), 7) {{ return "T" weighted 1 }} else {{ return "F" weighted 1 }} }}',
+    "pair-tuple-value": lambda S: f'def p {{ if f in ((("name", {S[0]}), ("region", "emea")), 7) {{ return "T" weighted 1 }} else {{ return "F" weighted 1 }} }}',
     "everywhere": lambda S: f'def p {{ salt: {S[0]} splitters: u if f == {S[1]} or f in ({S[2]}, ({S[3]})) {{ return {S[4]} weighted 1 }} else {{ return {S[5]} weighted 1, "b" weighted 1 }} }}',
 }
 NSLOTS = {"nested-tuple-member": 2, "everywhere": 6}
